@@ -47,6 +47,8 @@ var rules = map[string]*pkgRule{
 	"runtime": {alias: "vruntime", sub: "vruntime", names: set("Gosched")},
 	"time": {alias: "vtime", sub: "vtime", names: set(
 		"Now", "Since", "Until", "NewTicker", "Ticker", "Tick", "NewTimer", "Timer", "After", "AfterFunc", "Sleep")},
+	// pseudo package: channel operations outside select statements (receive, send, close) become vchan calls
+	"chan!": {alias: "vchan", sub: "vchan", names: set()},
 }
 
 // blocking primitives we do NOT shim; their use is reported as an assumption.
@@ -126,8 +128,60 @@ func rewriteFile(path, shim string) (fileSummary, error) {
 	var edits []edit
 	used := map[string]bool{}     // shim aliases needed
 	remaining := map[string]int{} // original package uses left
+	// channel operations that must stay as they are: the communication clauses of select statements (their
+	// semantics cannot be expressed by a call) ...
+	keepChan := map[ast.Node]bool{}
+	// ... and receives of the two-value form, which use another helper
+	recv2 := map[ast.Node]bool{}
 	ast.Inspect(file, func(n ast.Node) bool {
 		switch x := n.(type) {
+		case *ast.SelectStmt:
+			for _, c := range x.Body.List {
+				if cc, ok := c.(*ast.CommClause); ok && cc.Comm != nil {
+					ast.Inspect(cc.Comm, func(m ast.Node) bool {
+						switch m.(type) {
+						case *ast.UnaryExpr, *ast.SendStmt:
+							keepChan[m] = true
+						}
+						return true
+					})
+				}
+			}
+		case *ast.AssignStmt:
+			if len(x.Lhs) == 2 && len(x.Rhs) == 1 {
+				if u, ok := x.Rhs[0].(*ast.UnaryExpr); ok && u.Op == token.ARROW {
+					recv2[u] = true
+				}
+			}
+		case *ast.ValueSpec:
+			if len(x.Names) == 2 && len(x.Values) == 1 {
+				if u, ok := x.Values[0].(*ast.UnaryExpr); ok && u.Op == token.ARROW {
+					recv2[u] = true
+				}
+			}
+		}
+		return true
+	})
+	ast.Inspect(file, func(n ast.Node) bool {
+		switch x := n.(type) {
+		case *ast.UnaryExpr:
+			if x.Op == token.ARROW && !keepChan[x] {
+				fn := "vchan.Recv("
+				if recv2[x] {
+					fn = "vchan.Recv2("
+				}
+				edits = append(edits, edit{fset.Position(x.OpPos).Offset, 2, fn}, edit{fset.Position(x.X.End()).Offset, 0, ")"})
+				used["chan!"] = true
+				sum.Rewritten++
+				sum.ByName["chan.receive"]++
+			}
+		case *ast.SendStmt:
+			if !keepChan[x] {
+				edits = append(edits, edit{fset.Position(x.Pos()).Offset, 0, "vchan.Send("}, edit{fset.Position(x.Arrow).Offset, 2, ","}, edit{fset.Position(x.End()).Offset, 0, ")"})
+				used["chan!"] = true
+				sum.Rewritten++
+				sum.ByName["chan.send"]++
+			}
 		case *ast.SelectorExpr:
 			id, ok := x.X.(*ast.Ident)
 			if !ok || id.Obj != nil {
@@ -153,6 +207,13 @@ func rewriteFile(path, shim string) (fileSummary, error) {
 				}
 			}
 		case *ast.CallExpr:
+			if id, ok := x.Fun.(*ast.Ident); ok && id.Name == "close" && id.Obj == nil && len(x.Args) == 1 {
+				off := fset.Position(id.Pos()).Offset
+				edits = append(edits, edit{off, len(id.Name), "vchan.Close"})
+				used["chan!"] = true
+				sum.Rewritten++
+				sum.ByName["chan.close"]++
+			}
 			if id, ok := x.Fun.(*ast.Ident); ok && id.Name == "runtime_fastrand" {
 				off := fset.Position(id.Pos()).Offset
 				edits = append(edits, edit{off, len(id.Name), "vruntime.Fastrand"})
